@@ -3408,7 +3408,9 @@ static Token *function(Token *tok, Type *basety, VarAttr *attr) {
     fn->is_inline = attr->is_inline;
   }
 
-  fn->is_root = !(fn->is_static && fn->is_inline);
+  // A file-scope reference seen before this (re)declaration may
+  // already have made the function a root.
+  fn->is_root = fn->is_root || !(fn->is_static && fn->is_inline);
 
   if (consume(&tok, tok, ";"))
     return tok;
